@@ -110,7 +110,22 @@ class TableInfo(object):
                 if init is None:
                     continue
                 from .loader import own_nodes as _own, norm as _norm
-                for n in _own(init.node):
+                # the constructor and the methods it calls on self (self.clearcache())
+                todo, seen_m = [init], set()
+                nodes = []
+                while todo:
+                    m0 = todo.pop()
+                    if m0 in seen_m:
+                        continue
+                    seen_m.add(m0)
+                    for n in _own(m0.node):
+                        nodes.append(n)
+                        if isinstance(n, _ast.Call) and isinstance(n.func, _ast.Attribute) and \
+                                isinstance(n.func.value, _ast.Name) and n.func.value.id == 'self':
+                            m1 = self.ctx.res.lookup_method(cls, n.func.attr)
+                            if m1 is not None and len(seen_m) < 6:
+                                todo.append(m1)
+                for n in nodes:
                     if isinstance(n, _ast.Assign) and len(n.targets) == 1 and isinstance(n.targets[0], _ast.Attribute) \
                             and isinstance(n.targets[0].value, _ast.Name) and n.targets[0].value.id == 'self':
                         v = n.value
